@@ -104,6 +104,8 @@ struct ExecInfo {
     trace: Vec<u8>,
     digest: u64,
     steps: u64,
+    /// watchdog interventions in this execution (then it is not strictly replayable)
+    lost: u64,
 }
 
 type Fail = (String, String);
@@ -139,6 +141,7 @@ fn execute(scn: &Scn, globals: &[SimGlobals], pristine: &[liquid::Object], expec
     info.trace = res.trace.clone();
     info.digest = res.digest;
     info.steps = res.stats.steps;
+    info.lost = res.stats.lost_events;
     rep.distinct.push(Fnv::new().bytes(&res.trace).finish());
     if res.stats.replay_diverged {
         // the recorded schedule named a task that could not run at that point (other code than the
@@ -351,7 +354,11 @@ fn search(scn: &Scn, rng: &mut Rng, n_sched: usize, rep: &mut RunReport, digest:
             let mut scratch = RunReport::default();
             let r = execute(scn, &p.globals, &p.pristine, &p.expected, Policy::Replay(info.trace.clone()), 0, &mut scratch, &mut again);
             rep.bump("replay_probe.executions", 1);
-            if r.is_err() || again.digest != info.digest || again.trace != info.trace || scratch.counters.contains_key("replay_diverged") {
+            if info.lost > 0 || again.lost > 0 {
+                // the watchdog let two threads run in parallel for a while (overloaded machine):
+                // such an execution is sound but not replayable, so it proves nothing either way
+                rep.bump("replay_probe.skipped_lost_task", 1);
+            } else if r.is_err() || again.digest != info.digest || again.trace != info.trace || scratch.counters.contains_key("replay_diverged") {
                 rep.bump("replay_probe.MISMATCH", 1);
             }
         }
